@@ -131,6 +131,21 @@ CHECKS = {
          "discretizer classes, on fresh and on fitted objects; exception type, and values_orders / to_json / transform before vs after the rejected call.",
     ref="DESIGN.md section 8 C19", technique="Lean 4 proof (decision logic of the guard sequence) + fault injection of malformed inputs on the real code",
     note=BASE_NOTE + " The mapping from a real call to the abstract description is harness code; __init__-time checks (both types, sort_by) are exercised on the code only (partial)."),
+ "C14": dict(
+    text="Lean theorems about the model of the selection logic (_select_features with one ranking measure, the greedy association filters), for every measure table, association "
+         "function, threshold and n_best: at most n_best features, returned features are input features with a defined measure, every returned feature's association with each earlier "
+         "kept one is <= thresh_corr (greedy_pairwise / select_pairwise), a feature is filtered out only because of a better feature that was kept (greedy_left_out), no duplicates. "
+         "On the code: every reported measure (Kruskal H, Tschuprow T, Cramer V, R, correlation distance) is recomputed independently, the Lean specification (SpecSelect.judge) judges the "
+         "returned list per feature type, the Lean model must return the same list when there is no tie, X and y are deep-compared.",
+    ref="DESIGN.md section 8 C14", technique="Lean 4 proof (greedy filter / ranking logic) + independent recomputation of measures + model/code correspondence",
+    note=BASE_NOTE + " colsample<1 (unseeded shuffle) and lists of several ranking measures are outside the checked configurations; scipy/statsmodels values are compared numerically (1e-9), not proved."),
+ "C15": dict(
+    text="Lean theorems: average ranks, tie sizes and rank sums are invariant under every strictly increasing re-encoding of a feature (avgRank_strictMono, rankSum_strictMono), and Kruskal-Wallis H "
+         "depends only on (size, rank sum) of the groups (kruskalH_congr), so rank-based measures are unchanged by positive rescaling / monotone transforms; the selection logic is a function "
+         "of the measure table and pairwise associations only (C14). On the code: metamorphic pairs on the real selectors (negation, rescaling by powers of two, renaming and re-ordering of "
+         "categories, row and column permutations, outlier measures gating the association measure) compared up to swaps of tied features, and target copies / monotone functions of the target must be returned.",
+    ref="DESIGN.md section 8 C15", technique="Lean 4 proof (rank invariance) + metamorphic pairs on the real selectors",
+    note=BASE_NOTE + " Invariance under negation (rank reflection, |rho|) and the target-copy clause are decided by the metamorphic runs only (partial); known finding C15-regression-distance."),
 }
 NOT_YET = "check not built yet (construction in progress, see DESIGN.md section 13); will be claimed once its model, theorems and correspondence exist"
 
